@@ -154,6 +154,20 @@ def glue_contracts(T: Types, reg: Registry):
     C["set_invocation_result"].step_hooks = [step_j5]
     C["set_invocation_exception"].step_hooks = [step_j5]
     glue_part2(T, reg, C)
+    # ------------------------------------------------------------------ declaring a wait (C09): every awaited id is recorded, whatever its status
+    from pyvc.types import SeqT
+    OID = Opt(ID)
+    SID_ = SetT(ID)
+    awaited = lambda c: c.arg("result_invocation_ids")          # the list of awaited ids through its element set (deviation 2)
+    declared = lambda c: z3.And(c.arg("result_invocation_ids") != SID_.empty(), c.f("conf.blocking_control"), OID.is_some(c.arg("caller_invocation_id")))
+    C["waiting_for_results"] = Contract(
+        key=f"{BO}:BaseOrchestrator.waiting_for_results", shape="Orchestrator",
+        params={"caller_invocation_id": OID, "result_invocation_ids": SID_}, frame=[WAITED, EDGES],
+        cases=[
+            Case("declared", when=declared, ensures=[
+                ("C09:every-awaited-invocation-is-recorded-as-waited-on(picked up already or not)", lambda c: c.f(WAITED) == ops.set_union(c.old(WAITED), awaited(c)))]),
+            Case("nothing-to-declare", when=lambda c: z3.Not(declared(c)), ensures=unchanged(WAITED, EDGES)),
+        ], properties=["C09"])
     for c in C.values():
         reg.add(c)
     return C
